@@ -12,9 +12,11 @@ package main
 
 import (
 	"bufio"
+	"bytes"
 	"crypto/sha1"
 	"encoding/json"
 	"fmt"
+	"io"
 	"os"
 	"os/exec"
 	"path/filepath"
@@ -665,6 +667,9 @@ func contains(l []string, s string) bool {
 }
 
 func doReplay(path string) int {
+	if abs, err := filepath.Abs(path); err == nil {
+		path = abs // the harness runs in another directory
+	}
 	b, err := os.ReadFile(path)
 	if err != nil {
 		die("%v", err)
@@ -693,9 +698,16 @@ func doReplay(path string) int {
 			cmd := exec.Command(bin, append(args, e.Args...)...)
 			cmd.Dir = mcRoot
 			cmd.Env = env()
-			cmd.Stdout, cmd.Stderr = os.Stdout, os.Stderr
+			var tail bytes.Buffer
+			cmd.Stdout, cmd.Stderr = io.MultiWriter(os.Stdout, &tail), io.MultiWriter(os.Stderr, &tail)
 			if err := cmd.Run(); err != nil {
 				if ee, ok := err.(*exec.ExitError); ok {
+					// the replayed case killed the harness process with a panic inside nri's own code:
+					// that is the violation
+					if out := tail.String(); ee.ExitCode() == 2 && strings.Contains(out, "\npanic: ") && strings.Contains(out, "github.com/containerd/nri/pkg/") {
+						fmt.Printf("VIOLATION property=%s replay=%s\n", w.Property, path)
+						return 1
+					}
 					return ee.ExitCode()
 				}
 				die("%v", err)
